@@ -447,6 +447,8 @@ class DimFlow:
             return {}
         if k == "Null":
             return self.sys.fresh(":null")
+        if k == "Lambda":
+            return {}          # a closure object (its calls are judged where they happen)
         if k == "Ref":
             if e.get("dk") == "local":
                 v = self.lo.var.get(e.get("d"))
@@ -607,6 +609,13 @@ class DimFlow:
             if len(args) == 1:
                 return self.dim(args[0], st)
             raise Unmodelled("construction %s" % render(c)[:60])
+        if c.get("k") == "OpCall" and c.get("op") == "()" and args:
+            f0 = self.base_lo.resolve(args[0])
+            if f0.get("k") == "Lambda" and isinstance(f0.get("body"), dict):
+                vec_ops = ("axpy", "scale", "copy", "format", "apply", "dot", "norm2", "component_product", "filter_def", "filter_cor", "_apply_precond", "push_back")
+                if not any(is_call(x) and h["cname"](x) in vec_ops for x in walk(f0["body"])):
+                    return {}          # a closure without vector arithmetic (bookkeeping epilogue, ...): no equations
+            raise Unmodelled("call of a closure that computes with vectors %s" % render(c)[:50])
         if c.get("k") == "OpCall":
             raise Unmodelled("operator call %s" % render(c)[:60])
         # --- solver protocol
